@@ -285,7 +285,7 @@ def judge(kind, ops, out):
 def run(ctx):
     ctx.rule = ("(a) random schedules of visible labels (submit / finish j ok|fail / close) for W in {1,2,3,4,8} "
                 "workers, generated against a FIFO spec so that finish ops are enabled, plus disabled ops; thorough "
-                "tier: every schedule up to 7 visible labels for W in {1,2}; (b) random Add/Remove/Close sequences on "
+                "tier: every schedule of 9 visible labels (and all their prefixes) for W in {1,2} and of 7 for W = 3, quick tier: of 5; (b) random Add/Remove/Close sequences on "
                 "queueImpl with initial capacities 0..8 biased to oscillate around resize boundaries; (c) ungated "
                 "stress runs with scripted failure counts; non-trivial = scenario with a failure, a close or a ring "
                 "resize; distinct = distinct op list")
@@ -314,8 +314,11 @@ def run(ctx):
             ops += gen_seq(ctx.rng)
         for _ in range(ctx.scale(40, 1500)):
             ops += gen_stress(ctx.rng)
-        for sc in enum_scenarios(ctx.scale(4, 7)):
+        for sc in enum_scenarios(ctx.scale(5, 9)):
             ops += sc
+        if ctx.thorough:
+            for sc in enum_scenarios(7, ws=(3,)):
+                ops += sc
     impl = ctx.go_run(binary, "TestVerifC40", ops)
     crash = ctx.last_go_crash
     model = ctx.lean_run(ops)
